@@ -1175,7 +1175,7 @@ pub fn run_op<const N: usize, T: Elem>(
         }
 
         // ---------------------------------------------------------------- byte I/O
-        ("write", 2) | ("read", 1) | ("consume", 1) => {
+        ("write", 2) | ("read", 1) | ("consume", 1) | ("extend_ref", 2) => {
             for t in &toks[1..] {
                 let _ = num!(t);
             }
@@ -1186,6 +1186,15 @@ pub fn run_op<const N: usize, T: Elem>(
         }
 
         // ---------------------------------------------------------------- misc
+        ("default", 0) => {
+            // `Default::default()`: a second, empty buffer of the same type
+            let r = guard(|| {
+                let d: CircularBuffer<N, T> = cc!(Default::default());
+                let (start, size, _) = d.verif_raw();
+                let _ = write!(ret, "{} {} {} {}", start, size, d.is_empty(), d.capacity());
+            });
+            done!(r, |()| ());
+        }
         ("boxed", 0) => {
             let r = guard(|| {
                 let b = cc!(CircularBuffer::<N, T>::boxed());
